@@ -151,6 +151,7 @@ func (s *IndexedState) Load(ctx *Context) error {
 		return nil
 	}
 
+	var expired []string
 	pairs, err := s.Store.Load(ctx, s.Name)
 	if err != nil {
 		Log(ERROR, ctx, "IndexedState.Load", "location", s.Name, "error", err, "when", "Store.Load")
@@ -169,15 +170,25 @@ func (s *IndexedState) Load(ctx *Context) error {
 			if is {
 				// We have an expired fact in storage.
 				// Need to delete it and then skip it here.
-				// since no cache has been created, just remove it directly from the store
-				if _, err = s.Store.Remove(ctx, s.Name, []byte(id)); err != nil {
-					Log(ERROR, ctx, "IndexedState.Load", "location", s.Name, "error", err, "when", "rem", "id", id)
-					return err
-				}
+				expired = append(expired, id)
 			} else {
 				Log(ERROR, ctx, "IndexedState.Load", "location", s.Name, "error", err, "when", "Store.Add", "pair", pair)
 				return err
 			}
+		}
+	}
+
+	// Now that everything else is indexed: remove the expired facts
+	// from the store (they never made it into memory) together
+	// with what depends on them.
+	for _, id := range expired {
+		if _, err = s.Store.Remove(ctx, s.Name, []byte(id)); err != nil {
+			Log(ERROR, ctx, "IndexedState.Load", "location", s.Name, "error", err, "when", "rem", "id", id)
+			return err
+		}
+		if err = s.deleteDependencies(ctx, id); err != nil {
+			Log(ERROR, ctx, "IndexedState.Load", "location", s.Name, "error", err, "when", "deleteDependencies", "id", id)
+			return err
 		}
 	}
 
